@@ -375,15 +375,34 @@ DECORATOR_SRC = '''def simple_circuit_element(element):
             SimpleCircuitElement.__init__(self, name=kwargs.get('name', ''), reverse=kwargs.get('reverse', False))
     return decorated_element'''
 
-ROUND_SRC = '''def round_node(node: schemdraw.util.Point) -> schemdraw.util.Point:
-
-    def local_round(x):
-        return round(x, ndigits=2)
-    return schemdraw.util.Point((local_round(node.x), local_round(node.y)))'''
+def round_digits(fn) -> list:
+    """`round_node`: the chain of decimal roundings applied to each coordinate, innermost first
+    (`round(x, ndigits=2)` ↦ [2]; `round(round(x, ndigits=9), ndigits=2)` ↦ [9, 2])"""
+    if fn is None or len(fn.body) != 2 or not isinstance(fn.body[0], ast.FunctionDef) or fn.body[0].name != 'local_round':
+        _err(ELM, fn, 'round_node is not the function the hand-written model mirrors')
+    if ast.unparse(fn.body[1]) != 'return schemdraw.util.Point((local_round(node.x), local_round(node.y)))':
+        _err(ELM, fn, 'round_node does not round both coordinates with local_round')
+    lr = fn.body[0]
+    if [a.arg for a in lr.args.args] != ['x'] or len(lr.body) != 1 or not isinstance(lr.body[0], ast.Return):
+        _err(ELM, lr, 'local_round outside the grammar')
+    digits = []
+    e = lr.body[0].value
+    while True:
+        if isinstance(e, ast.Name) and e.id == 'x':
+            break
+        if not (isinstance(e, ast.Call) and isinstance(e.func, ast.Name) and e.func.id == 'round' and len(e.args) == 1
+                and len(e.keywords) == 1 and e.keywords[0].arg == 'ndigits' and isinstance(e.keywords[0].value, ast.Constant)
+                and isinstance(e.keywords[0].value.value, int) and 0 <= e.keywords[0].value.value <= 15):
+            _err(ELM, lr, f'local_round outside the grammar: {ast.unparse(lr.body[0])}')
+        digits.insert(0, e.keywords[0].value.value)
+        e = e.args[0]
+    if not digits:
+        _err(ELM, lr, 'local_round does not round')
+    return digits
 
 def gen_elem_classes(src) -> str:
     mod = extract.parse(src, ELM)
-    for name, want in (('simple_circuit_element', DECORATOR_SRC), ('round_node', ROUND_SRC)):
+    for name, want in (('simple_circuit_element', DECORATOR_SRC),):
         fn = next((s for s in mod.body if isinstance(s, ast.FunctionDef) and s.name == name), None)
         if fn is None or ast.unparse(fn) != want:
             _err(ELM, fn or mod, f'{name} is not the function the hand-written model mirrors')
@@ -490,7 +509,10 @@ def gen_elem_classes(src) -> str:
                     f'          fields := {lean_list(fields, ", ")},\n'
                     f'          sinShift := {sin_shift}, revForward := {rev_fwd},\n'
                     f'          props := {lean_list(props, ", ")} }}')
-    return 'def elemClasses : List ElemClass :=\n  ' + lean_list(recs, ',\n   ')
+    rd = round_digits(next((s for s in mod.body if isinstance(s, ast.FunctionDef) and s.name == 'round_node'), None))
+    return ('/-- `round_node`: decimal places of the chain of `round(…, ndigits=…)` calls, innermost first -/\n'
+            f'def roundDigits : List Nat := {rd}\n\n'
+            'def elemClasses : List ElemClass :=\n  ' + lean_list(recs, ',\n   '))
 
 # --------------------------------------------------------------------------- loader / declarative tables
 
